@@ -30,6 +30,8 @@ type cacheWorld struct {
 	retain   func(name string, info hackpadfs.FileInfo) bool
 	retDesc  string
 	storeMin bool
+	// firstAnswer (stateful policies): what the policy said when it was first asked about a name
+	firstAnswer map[string]bool
 }
 
 type cacheStoreIface interface {
@@ -71,7 +73,22 @@ func newCacheWorld(t *T, sizes []int) *cacheWorld {
 		w.src.readErr = io.ErrUnexpectedEOF
 	}
 	w.store = &capCore{t: t, inner: w.storeIn, faultAt: -1, label: "store.", writing: map[string]int{}, short: c.Chance(1, 2), lossyClose: true}
-	switch c.Draw(4) {
+	switch c.Draw(5) {
+	case 4:
+		// a policy with a memory: retain while a byte budget lasts. The library may ask it when it has to decide
+		// about a copy, not on every open of a file it already holds
+		budget, used := int64(1000+c.Draw(3000)), int64(0)
+		w.firstAnswer = map[string]bool{}
+		w.retain, w.retDesc = func(name string, info hackpadfs.FileInfo) bool {
+			ok := used+info.Size() <= budget
+			if ok {
+				used += info.Size()
+			}
+			if _, seen := w.firstAnswer[name]; !seen {
+				w.firstAnswer[name] = ok
+			}
+			return ok
+		}, fmt.Sprintf("budget(%d bytes)", budget)
 	case 0:
 		w.retain, w.retDesc = nil, "always(default)"
 	case 1:
@@ -103,6 +120,9 @@ func newCacheWorld(t *T, sizes []int) *cacheWorld {
 func (w *cacheWorld) retained(name string) bool {
 	if w.retain == nil {
 		return true
+	}
+	if w.firstAnswer != nil {
+		return w.firstAnswer[name]
 	}
 	info, err := hackpadfs.Stat(w.srcInner, name)
 	if err != nil {
@@ -245,6 +265,7 @@ func runC10(t *T) {
 					for _, e := range ce {
 						h.cents = append(h.cents, fmt.Sprintf("%s:%v", e.Name(), e.IsDir()))
 					}
+					c16Scribble(ce) // a page belongs to the caller
 					for _, e := range me {
 						h.ments = append(h.ments, fmt.Sprintf("%s:%v", e.Name(), e.IsDir()))
 					}
